@@ -25,6 +25,7 @@ func init() {
 const (
 	keyLabelled0 = "multi-commit-entry:later-commit-labelled-index-0"
 	keyLaterLost = "multi-commit-entry:later-commit-never-delivered"
+	keySkipped   = "leader-regained:unsent-batch-skipped"
 )
 
 func run(c *vf.Ctx) {
@@ -137,6 +138,58 @@ func anyRequiredMissing(exp []expEntry, receipts []receipt) bool {
 		}
 	}
 	return false
+}
+
+// skippedAfterRegain recognises one precise way of losing a batch: a service
+// instance posted the batch holding (idx, ev) without success, was then told it
+// is no longer leader, and after that posted a batch of higher indices (it
+// resumed behind the unsent batch). Returns a description, or "".
+func skippedAfterRegain(h *histOut, idx uint64, ev pev) string {
+	recs := append([]receipt(nil), h.Receipts...)
+	sort.Slice(recs, func(a, b int) bool { return recs[a].Seq < recs[b].Seq })
+	for _, r1 := range recs {
+		if r1.Mode == "ok" {
+			continue
+		}
+		holds := false
+		for _, m := range r1.Msgs {
+			if m.Index != idx {
+				continue
+			}
+			for _, d := range m.Events {
+				if d.K == ev.K || (d.Err != "" && d.ID == ev.ID) {
+					holds = true
+				}
+			}
+		}
+		if !holds {
+			continue
+		}
+		var lost int64
+		for _, le := range h.LeaderEvs {
+			if le.Node == r1.Node && le.Inst == r1.Inst && !le.IsLeader && le.Seq > r1.Seq && (lost == 0 || le.Seq < lost) {
+				lost = le.Seq
+			}
+		}
+		if lost == 0 {
+			continue
+		}
+		for _, r2 := range recs {
+			if r2.Seq < lost || r2.Node != r1.Node || r2.Inst != r1.Inst {
+				continue
+			}
+			var mn uint64
+			for _, m := range r2.Msgs {
+				if m.Index != 0 && (mn == 0 || m.Index < mn) {
+					mn = m.Index
+				}
+			}
+			if mn > idx {
+				return fmt.Sprintf("the service of %s (instance %d) posted the batch without success (payload #%d, answered %s), lost leadership (signal #%d) while retrying, and after regaining it resumed with index %d (payload #%d), behind the unsent batch; its later high-water mark made every node prune the batch", r1.Node, r1.Inst, r1.Seq, r1.Mode, lost, mn, r2.Seq)
+			}
+		}
+	}
+	return ""
 }
 
 func judge(c *vf.Ctx, i int, h *histOut) {
@@ -308,7 +361,11 @@ func judge(c *vf.Ctx, i int, h *histOut) {
 				case elsewhere:
 					viol("wrong-index:first-commit-of-entry", fmt.Sprintf("delivered only under index %d: %s", other, describe(e, gi, ev)), e)
 				default:
-					viol("missing:first-commit-of-entry", "committed row change never delivered after the drain: "+describe(e, gi, ev), e)
+					if why := skippedAfterRegain(h, e.Index, ev); why != "" {
+						viol(keySkipped, "committed row change never delivered: "+why+": "+describe(e, gi, ev), e)
+					} else {
+						viol("missing:first-commit-of-entry", "committed row change never delivered after the drain: "+describe(e, gi, ev), e)
+					}
 				}
 			}
 		}
